@@ -387,7 +387,7 @@ def run_vqe_case(c):
     msb = qubit_msb_first(v.backend)
     cache = {}
     fh = mol.fermionic_hamiltonian
-    kw = dict(mapping=c["mapping"], n_spinorbitals=nso, n_electrons=mol.n_active_electrons, up_then_down=c["utd"], spin=mol.spin)
+    kw = dict(mapping=c["mapping"], n_spinorbitals=nso, n_electrons=mol.n_active_electrons, up_then_down=c["utd"], spin=mol.active_spin)
     evs = {}
     for key in fh.terms:
         if not key:
@@ -604,7 +604,9 @@ def real_circuit(rng, nq, ref_gates=()):
 
 
 def uhf_signature(mol, mapping, what):
-    """call site + input class of a get_rdm_uhf failure"""
+    """call site + input class of a get_rdm_uhf failure.  The class scbk/spin-differs-from-active_spin was a defect of the
+    original source (operators mapped with molecule.spin), repaired by /repo commit 0fac909; the class is kept so that a
+    regression is reported under the same signature."""
     nm = mol.n_active_mos
     if nm[0] != nm[1]:
         return "C13/get_rdm_uhf/unequal-active-spaces/%s" % what
